@@ -75,6 +75,7 @@ def _P(gr, gf):
 def run_linear(ctx):
   jax = common.jx()
   import jax.numpy as jnp
+  from dinosaur import filtering, time_integration as ti
   from vlib import jxa
   out = Outcome()
   worst = 0.0
@@ -92,6 +93,13 @@ def run_linear(ctx):
         'cos_lat_grad[0]': (lambda x: g.cos_lat_grad(x)[0], 'm', 'm'), 'cos_lat_grad[1]': (lambda x: g.cos_lat_grad(x)[1], 'm', 'm'),
         'div_cos_lat(x,x)': (lambda x: g.div_cos_lat((x, 2 * x)), 'm', 'm'), 'curl_cos_lat(x,x)': (lambda x: g.curl_cos_lat((x, 2 * x)), 'm', 'm'),
         'integrate': (g.integrate, 'n', 's'),
+        # programs built on the Grid that read its wavenumber axes / eigenvalues as a whole (normalisation by the largest one): they must not
+        # see the layout's padding either
+        'exponential_filter(default)': (filtering.exponential_filter(g), 'm', 'm'),
+        'exponential_filter(a=4,p=2,c=0.3)': (filtering.exponential_filter(g, 4.0, 2, 0.3), 'm', 'm'),
+        'horizontal_diffusion_filter(0.01,1)': (filtering.horizontal_diffusion_filter(g, 0.01, 1), 'm', 'm'),
+        'exponential_step_filter(dt=0.1,tau=0.5)': (lambda x, g=g: ti.exponential_step_filter(g, 0.1, 0.5, 3, 0.2)(None, x), 'm', 'm'),
+        'horizontal_diffusion_step_filter(dt=0.1,tau=0.5)': (lambda x, g=g: ti.horizontal_diffusion_step_filter(g, 0.1, 0.5, 2)(None, x), 'm', 'm'),
     }
     Ar = {k: jxa.matrix_of(f, xr if i == 'm' else zr)[0] for k, (f, i, o) in ops(gr).items()}
     opts = _opts(ctx.tier)
@@ -253,6 +261,7 @@ def run_trajectories(ctx):
 def replay_linear(w):
   jax = common.jx()
   import jax.numpy as jnp
+  from dinosaur import filtering, time_integration as ti
   M, L, lon, lat, spacing, off, rad = w['grid']
   gr = common.make_grid(M, L, lon, lat, spacing, 'real', off, rad)
   gf = common.make_grid(M, L, lon, lat, spacing, 'fast', off, rad, **w['opt'])
@@ -264,7 +273,12 @@ def replay_linear(w):
   f = {'clip_wavenumbers(1)': lambda g, v: g.clip_wavenumbers(v, 1), 'clip_wavenumbers(2)': lambda g, v: g.clip_wavenumbers(v, 2),
        'cos_lat_grad[0]': lambda g, v: g.cos_lat_grad(v)[0], 'cos_lat_grad[1]': lambda g, v: g.cos_lat_grad(v)[1],
        'div_cos_lat(x,x)': lambda g, v: g.div_cos_lat((v, 2 * v)), 'curl_cos_lat(x,x)': lambda g, v: g.curl_cos_lat((v, 2 * v)),
-       'to_nodal': lambda g, v: g.to_nodal(v)}.get(k, lambda g, v: getattr(g, k)(v))
+       'to_nodal': lambda g, v: g.to_nodal(v),
+       'exponential_filter(default)': lambda g, v: filtering.exponential_filter(g)(v),
+       'exponential_filter(a=4,p=2,c=0.3)': lambda g, v: filtering.exponential_filter(g, 4.0, 2, 0.3)(v),
+       'horizontal_diffusion_filter(0.01,1)': lambda g, v: filtering.horizontal_diffusion_filter(g, 0.01, 1)(v),
+       'exponential_step_filter(dt=0.1,tau=0.5)': lambda g, v: ti.exponential_step_filter(g, 0.1, 0.5, 3, 0.2)(None, v),
+       'horizontal_diffusion_step_filter(dt=0.1,tau=0.5)': lambda g, v: ti.horizontal_diffusion_step_filter(g, 0.1, 0.5, 2)(None, v)}.get(k, lambda g, v: getattr(g, k)(v))
   if k in ('to_modal', 'integrate'):
     return False, 'replay implemented for modal-input operations only'
   yr = np.asarray(f(gr, jnp.asarray(x)))
